@@ -113,6 +113,7 @@ func VerifH04a() {
 	}
 	vAllocLimits(lim, 65535)
 	_, err := w.step()
+	vAllocCheck()
 	_ = err // rejecting the message (error, dropped connection) is fine; crashing is not
 	vAssert("wire-wellformed", vWireOK(w.conn.out))
 	if len(w.events) > 0 {
@@ -123,6 +124,7 @@ func VerifH04a() {
 	}
 	// a second step must not crash either (EOF, leftovers of COPY mode, ...)
 	w.step() //nolint
+	vAllocCheck()
 }
 
 // ---------------------------------------------------------------------------
@@ -168,6 +170,7 @@ func VerifH04d() {
 	lim := 4096
 	vAllocLimits(lim, 65535)
 	err := w.srv.serve(context.Background(), conn)
+	vAllocCheck()
 	vAssert("serve-returns", err != nil || conn.closed >= 1)
 	vAssert("connection-closed", conn.closed >= 1)
 	types := vTypes(conn.out)
